@@ -363,11 +363,20 @@ impl World {
                 s.push(')');
                 if !rets.is_empty() {
                     s.push_str(": ");
+                    let mut list = String::new();
                     for (i, r) in rets.iter().enumerate() {
                         if i > 0 {
-                            s.push_str(", ");
+                            list.push_str(", ");
                         }
-                        self.write(r, s, false);
+                        self.write(r, &mut list, false);
+                    }
+                    // a return list starting with `(` is taken as the parenthesized LuaLS form `(A, B)`
+                    if list.starts_with('(') {
+                        s.push('(');
+                        s.push_str(&list);
+                        s.push(')');
+                    } else {
+                        s.push_str(&list);
                     }
                 }
                 if !top {
@@ -554,7 +563,7 @@ impl Profile {
     }
     /// the sub-grammar whose display syntax is annotation syntax (C17)
     pub fn renderable() -> Profile {
-        Profile { funs: false, tuples: false, generics: false, unknown: false, odd_keys: false, render_limits: true, max_depth: 7, root_union: 40 }
+        Profile { funs: false, tuples: false, generics: false, unknown: false, odd_keys: true, render_limits: true, max_depth: 7, root_union: 40 }
     }
 }
 
